@@ -136,7 +136,7 @@ func RunC19(c *Ctx) {
 				if len(d)+3 > cap(dst) {
 					dst = make([]byte, 0, 2*len(d)+3)
 				}
-				buf := dst[:3 : len(d)+3]
+				buf := dst[: 3 : len(d)+3]
 				return func() error { _, _, e := rjson.ReadStringBytes(d, buf); return e }, true
 			}},
 			{"ReadStringBytes(roomy dst)", func(d []byte) (func() error, bool) {
@@ -331,9 +331,9 @@ func RunC19(c *Ctx) {
 }
 
 type failAtHandler struct {
-	k, n   int
+	k, n    int
 	garbage int
-	err    error
+	err     error
 }
 
 func (f *failAtHandler) answer() (int, error) {
@@ -349,7 +349,9 @@ func (f *failAtHandler) HandleObjectValue(k, d []byte) (int, error) { return f.a
 
 type reentrantSkipHandler struct{ buf *rjson.Buffer }
 
-func (r reentrantSkipHandler) HandleArrayValue(d []byte) (int, error) { return rjson.SkipValue(d, r.buf) }
+func (r reentrantSkipHandler) HandleArrayValue(d []byte) (int, error) {
+	return rjson.SkipValue(d, r.buf)
+}
 func (r reentrantSkipHandler) HandleObjectValue(k, d []byte) (int, error) {
 	return rjson.SkipValueFast(d, r.buf)
 }
